@@ -258,3 +258,26 @@ pub proof fn lemma_dquote_one_word(s: Seq<char>, suf: Seq<char>)
     assert(sh_tail(t) =~= t1);
     assert(sh_scan(t, ShMode::Unq) == sh_scan(t1, ShMode::Dq));
 }
+
+// ---------- the contracts of the two real helpers (used by prelude/sh_escape_fns.rs and units/sh_escape.unit.rs) ----------
+// r is what the helper returned for s: a POSIX shell reads '<r>' (resp. "<r>") as exactly the one word s,
+// nothing interpreted, everything consumed; `r == sq(s)` / `r == dq(s)` lets callers use the lemmas above
+// with any following text.
+pub open spec fn sq_contract(s: Seq<char>, r: Seq<char>) -> bool {
+    r == sq(s) && sh_yields(sh_word(seq!['\''] + r + seq!['\'']), s, Seq::<char>::empty())
+}
+pub open spec fn dq_contract(s: Seq<char>, r: Seq<char>) -> bool {
+    r == dq(s) && sh_yields(sh_word(seq!['"'] + r + seq!['"']), s, Seq::<char>::empty())
+}
+pub proof fn lemma_sq_contract(s: Seq<char>)
+    ensures sq_contract(s, sq(s))
+{
+    lemma_squote_one_word(s, Seq::<char>::empty());
+    assert(sh_squote(s) + Seq::<char>::empty() =~= seq!['\''] + sq(s) + seq!['\'']);
+}
+pub proof fn lemma_dq_contract(s: Seq<char>)
+    ensures dq_contract(s, dq(s))
+{
+    lemma_dquote_one_word(s, Seq::<char>::empty());
+    assert(sh_dquote(s) + Seq::<char>::empty() =~= seq!['"'] + dq(s) + seq!['"']);
+}
